@@ -47,6 +47,18 @@ void h_PIP(void)
   __CPROVER_assert(got == want, "PointInPolygon == exact on / inside / outside by the even-odd rule");
   VF_CANARY();
 }
+/* C10: a polygon that IS contained in the query point's horizontal line (outside C18's exactness claim) must still be handled without reading past the path */
+void h_PIP_flat(void)
+{
+  PointT v[N], pt; PathT poly = { v, N };
+  for (int i = 0; i < N; ++i) { v[i].x = nondet_i64(); v[i].y = 0; __CPROVER_assume(v[i].x >= -G && v[i].x <= G); }
+  pt.x = 0; pt.y = 0;
+  PointInPolygonResult got = PointInPolygon(pt, poly);
+  __CPROVER_assert((unsigned)got <= (unsigned)PointInPolygonResult_IsOutside, "a verdict is returned");
+  VF_CANARY();
+}
 //@run name=PointInPolygon.n3 entry=h_PIP defs=N=3,G=4 unwind=5 unwindset=PointInPolygon.3:8 flags="--bounds-check --pointer-check --signed-overflow-check" timeout=600 bounded="triangles, all vertex coordinates symbolic in [-4, 4] relative to the query point"
 //@run name=PointInPolygon.n4 entry=h_PIP defs=N=4,G=3 unwind=6 unwindset=PointInPolygon.3:10 flags="--bounds-check --pointer-check --signed-overflow-check" timeout=900 bounded="quadrilaterals (self-intersecting ones included), all vertex coordinates symbolic in [-3, 3] relative to the query point"
 //@run name=PointInPolygon.n5 entry=h_PIP defs=N=5,G=2 unwind=7 unwindset=PointInPolygon.3:12 flags="--bounds-check --pointer-check --signed-overflow-check" timeout=900 bounded="pentagons, coordinates in [-2, 2]" tier=thorough
+//@run name=PointInPolygon.flat3 entry=h_PIP_flat defs=N=3,G=4 unwind=5 unwindset=PointInPolygon.3:8 flags="--bounds-check --pointer-check --signed-overflow-check" timeout=300 bounded="three collinear vertices on the query point's horizontal" props=C10
+//@run name=PointInPolygon.flat4 entry=h_PIP_flat defs=N=4,G=3 unwind=6 unwindset=PointInPolygon.3:10 flags="--bounds-check --pointer-check --signed-overflow-check" timeout=300 bounded="four collinear vertices on the query point's horizontal" props=C10
